@@ -131,29 +131,13 @@ def classes(case) -> List[str]:
     out = []
     c = case["cond"]
 
-    def walk(n, under_not):
-        k = n[0]
-        if k == "or":
-            if or_is_union(n) and under_not:
-                out.append("K_notunion")
-            walk(n[1], under_not)
-            walk(n[2], under_not)
-        elif k == "and":
-            walk(n[1], under_not)
-            walk(n[2], under_not)
-        elif k == "not":
-            walk(n[1], True)
-        elif k in ("exists", "forall"):
-            walk(n[2], under_not)
-
+    # (K_notunion -- Union under a negation -- was repaired in 6dfdafd and K_selprod -- a variable selected twice -- in
+    # 32abf51: both shapes are ordinary cases of the proved fragment now)
     if c is not None:
-        walk(c, False)
         if has_quant(c):
             out.append("K_quant")
             out.extend(quant_classes(case))
     roots = [opnd_var(s) for s in case["sels"]]
-    if len(set(roots)) != len(roots):
-        out.append("K_selprod")
     qv = set(r for r in roots if r) | set(cond_vars(c) if c is not None else [])
     if any(len(case["doms"][v]) == 0 for v in qv):
         out.append("K_emptydom")
@@ -173,8 +157,8 @@ def must_bind(c, truth: bool) -> set:
         if truth:
             return must_bind(c[1], True) & must_bind(c[2], True) if or_is_union(c) else \
                 must_bind(c[1], True) & (must_bind(c[1], False) | must_bind(c[2], True))
-        return (must_bind(c[1], False) | must_bind(c[2], False)) if not or_is_union(c) else \
-            must_bind(c[2], False) & (must_bind(c[1], False) | must_bind(c[2], False))
+        # since 6dfdafd a Union yields false results from its first (else-if) pass only
+        return must_bind(c[1], False) | must_bind(c[2], False)
     if k == "not":
         if c[1][0] in ("exists", "forall"):
             return set()
@@ -469,8 +453,36 @@ def gen_world(rng: Rng, twins: bool = False) -> List[dict]:
     return objs
 
 
+def gen_sym_exists(rng: Rng) -> dict:
+    """exists over z with TWO other variables x, y that range over the same objects: the assignments (x=a, y=b) and
+    (x=b, y=a) use the same values in swapped roles, so a de-duplication that forgets which variable holds which value
+    loses rows (seeded change C01-C)"""
+    n = rng.randint(2, 4)
+    objs = [{"id": i, "cls": "P", "key": i, "a": rng.randint(0, 2), "b": rng.randint(0, 2), "items": [], "kids": [],
+             "child": rng.randint(1, n)} for i in range(1, n + 1)]
+    ids = [o["id"] for o in objs]
+    dom = rng.sample(ids, rng.randint(2, n))
+    case: Dict[str, Any] = {"objs": objs, "vars": {"x": "P", "y": "P", "z": "P"},
+                            "doms": {"x": dom, "y": rng.sample(dom, len(dom)), "z": rng.sample(ids, rng.randint(1, n))}}
+
+    def link(v):
+        za = ["attr", ["var", "z"], rng.choice(["a", "b"])]
+        va = ["attr", ["var", v], rng.choice(["a", "b"])]
+        return ["cmp", rng.choice(["<=", ">=", "!=", "==", "<"]), va, za] if rng.chance(0.7) else \
+               ["cmp", rng.choice(["==", "!="]), ["attr", ["var", v], "child"], ["var", "z"]]
+
+    body = ["and", link("x"), link("y")] if rng.chance(0.8) else ["or", link("x"), link("y")]
+    q = ["exists", "z", body]
+    case["cond"] = q if rng.chance(0.6) else ["and", ["cmp", rng.choice(["!=", "<=", ">="]), ["attr", ["var", "x"], "a"],
+                                                       ["attr", ["var", "y"], rng.choice(["a", "b"])]], q]
+    case["sels"] = [["var", "x"], ["var", "y"]] if rng.chance(0.8) else [["var", rng.choice(["x", "y"])]]
+    return case
+
+
 def gen_case(rng: Rng, profile: str = "c01", extras: bool = False) -> dict:
     """profile c01: everything; c02: biased to the conjunctive / else-if fragment with duplicate-free domains"""
+    if profile == "quant" and rng.chance(0.12):
+        return gen_sym_exists(rng)
     twins = profile == "quant" and rng.chance(0.35)
     objs = gen_world(rng, twins)
     pids = [o["id"] for o in objs if o["cls"] == "P"]
